@@ -53,10 +53,10 @@ static void build(size_t cap, bool shared, size_t ucap)
         w_begin();
         struct cat_command *a = w_group(8, false);
         a[7].name = xstr("+"); a[7].write = h_write; a[7].implicit_write = true; a[7].disable = true;     /* invisible: must not cut the names that start with it */
-        a[0].name = xstr("+W"); a[0].write = h_write;
+        a[0].name = xstr("+W"); a[0].write = h_write; w_vars(&a[0], 0);      /* no variables: var NULL or an empty table */
         a[1].name = xstr("+V"); a[1].write = h_write;
         { struct cat_variable *v = w_vars(&a[1], 2); v[0].type = CAT_VAR_UINT_DEC; w_vdata(&v[0], 1); v[0].write = hv_write; v[1].type = CAT_VAR_BUF_STRING; w_vdata(&v[1], 8); v[1].write = hv_write; }
-        a[2].name = xstr("D"); a[2].write = h_write; a[2].implicit_write = true;
+        a[2].name = xstr("D"); a[2].write = h_write; a[2].implicit_write = true; w_vars(&a[2], 0);
         for (int t = 0; t < 2; t++) {
                 struct cat_command *c = &a[3 + t];
                 c->name = xstr(t ? "+Q" : "+R"); if (!t) { c->read = h_read; c->test = h_test; }
@@ -97,7 +97,7 @@ static void write_line(int target /*0 +W,1 +V,2 D*/, size_t want_len, bool lower
                 args[n++] = (uint8_t)('0' + rn(10)); memcpy(args + n, ",\"aB\"", 5); n += 5;
         } else {
                 for (size_t i = 0; i < want_len; i++) { uint8_t ch; do ch = chance(70) ? (uint8_t)(' ' + rn(95)) : (uint8_t)rnd(); while (ch == '\n' || ch == '\r'); args[n++] = ch; }
-                if (n && args[0] == '?' && target == 0) args[0] = '!';
+                if (n && target == 0 && chance(6)) args[0] = '?';      /* "+W" has neither variables nor a test handler: a leading '?' is an ordinary argument byte for its write handler */
         }
         for (size_t i = 0; i < n; i++) { if (chance(4)) sent[ns++] = '\r'; sent[ns++] = args[i]; }
         if (chance(20)) sent[ns++] = '\r';
